@@ -69,6 +69,11 @@ TConnectDup == /\ Ev.e = "ConnectDup"
                /\ WithDue(ConnectDup(K))
                /\ MgrMatches
 
+\* the listener turned a connection away (too many peers that have nothing we want)
+TConnectRefused == /\ Ev.e = "ConnectRefused"
+                   /\ WithDue(ConnectRefused)
+                   /\ MgrMatches
+
 \* first half of a task step that calls the manager
 TCall ==
   /\ Ev.e = "Call"
@@ -179,7 +184,7 @@ TPanic == /\ Ev.e = "Panic"
 
 TNext == /\ l <= Len(Rec)
          /\ l' = l + 1
-         /\ (TReset \/ TConnect \/ TConnectDup \/ TCall \/ TMgr \/ TEnd \/ TExit \/ TRotate \/ TTracker \/ TSettle \/ TDisk \/ TPanic)
+         /\ (TReset \/ TConnect \/ TConnectDup \/ TConnectRefused \/ TCall \/ TMgr \/ TEnd \/ TExit \/ TRotate \/ TTracker \/ TSettle \/ TDisk \/ TPanic)
          /\ TLCSet(1, l)
 TSpec == TInit /\ [][TNext]_tvars
 
